@@ -353,3 +353,34 @@ reg(P("C18", "plugins", "c18",
       sig_reset=("algo", "conc"), sig_event=("ev",),
       mutate=_c18_mutate, design_ref="DESIGN.md §6 C18",
       technique="TLC model checking of the transcribed algorithms (cycle exactness, refinement) + TLC trace validation of real picks"))
+
+
+def _c17_mutate(rec):
+    if rec.get("ev") == "quiesce":
+        rec["cr"] = rec["cr"] + 1
+        return rec
+    if rec.get("ev") == "window":
+        rec["tokens"] = rec["tokens"] + 50
+        return rec
+    return None
+
+
+_LIM_Q = [("LimiterImplMC", "LimiterImpl_%s.cfg" % c, 600) for c in ("sem1", "sem2", "sem2nt", "rate")] + \
+         [("LimiterImplMC", "LimiterImpl_rate_bug.cfg", 600, "violation")]
+_LIM_T = [("LimiterImplMC", "LimiterImpl_%s.cfg" % c, 1500) for c in ("sem1", "sem2", "sem2nt", "sem_big", "rate", "rate_big")] + \
+         [("LimiterImplMC", "LimiterImpl_rate_bug.cfg", 600, "violation")]
+reg(P("C17", "plugins", "c17",
+      mc={"quick": _LIM_Q, "thorough": _LIM_T},
+      traces=[("", "LimiterTrace", "LimiterTrace.cfg")],
+      level="model_checking",
+      rule="semaphore: every script up to the tier's length over {start, finish ok/err/panic, quiesce} x capacity 1..2 "
+           "with requests parked in the downstream handler, seeded scripts with real waits around a 20 ms time-out, a "
+           "capacity probe at the end of every case; rate limiter: seeded sequential scripts (1-3 tokens, sleeps, "
+           "time-outs) judged by interval arithmetic, free-running concurrent acquirers and acquirers forced through "
+           "the load/store yield point judged on sampled windows; non-trivial = at least 3 operations",
+      assumptions=["time is read from the monotonic clock around each call; the monitor rejects only decisions that no "
+                   "clock value inside the bracket explains",
+                   "the bound is burst + rate*elapsed + two requests (the algorithm clamps after charging and admits on credit)"],
+      sig_reset=("kind",), sig_event=("ev", "res"),
+      mutate=_c17_mutate, design_ref="DESIGN.md §6 C17",
+      technique="TLC model checking of LimiterImpl (semaphore interleavings, rate bound) + TLC trace validation with interval arithmetic"))
